@@ -1,8 +1,10 @@
+import Aegean.Model.C07
 /-
   C07 — Spec: what the property demands of one observed BANE call, as decidable predicates.
   Evaluated by the driver on what the *implementation* did; proved of the model in Properties.C07.
 -/
 namespace Aegean.Spec.C07
+open Aegean.Model.C07
 
 /-- walk the stripes in order: each starts where the previous one ended and is not empty -/
 def chain (cur : Nat) : List (Nat × Nat) → Option Nat
@@ -22,5 +24,23 @@ def outcomeOK (faultInjected : Bool) : Outcome → Bool
   | .done => !faultInjected
   | .exception => faultInjected
   | .hang => false
+
+
+/-- does `b` occur after the first `a` (vacuously true when `a` does not occur) -/
+def afterIdx (t : List Ev) (a b : Ev) : Bool :=
+  match t.idxOf? a with
+  | none => true
+  | some i => (t.drop (i + 1)).contains b
+
+/-- what the property demands of ANY exit path of `filter_mc_sharemem`, as a predicate on the sequence of
+    completed actions (not on one particular path, so extra idempotent clean-up such as a second
+    `pool.terminate()` is allowed): a segment that was created is closed and unlinked afterwards, and
+    from the first unlink on nothing happens that still needs the segments (pool set-up, waiting for the
+    stripes, copying the maps) -/
+def releasedOK (t : List Ev) : Bool :=
+  afterIdx t .createBkg .closeBkg && afterIdx t .createBkg .unlinkBkg &&
+  afterIdx t .createRms .closeRms && afterIdx t .createRms .unlinkRms &&
+  !((t.dropWhile (fun e => e != .unlinkBkg && e != .unlinkRms)).any
+      (fun e => e == .setup || e == .mapGet || e == .collect))
 
 end Aegean.Spec.C07
